@@ -34,6 +34,7 @@ class CheckerFault(Exception):
 
 # the currently active path (set by the explorer); Sym.__bool__ forks through it
 PATH = [None]
+SAFETY = [True]      # False while a contract clause is being evaluated
 
 
 def set_path(p):
